@@ -19,6 +19,9 @@ faithful run-time model of Martian/TypingRun.lean (`evalT`, `deliveredT`,
 `none` = a run-time resolution error, a delivered value that does not validate,
 or not enough fuel (`n` bounds the nesting depth of pipelines).
 
+A call whose `disabled` modifier resolves to `true` is not invoked and delivers
+`null` outputs (`disabledRT`).
+
 Simplifications, stated: the number of forks of a mapped call is the length of
 the longest split collection and a shorter one reads as `null` there (a
 run-time length mismatch between two split collections is the by-design error
@@ -68,8 +71,37 @@ def Prog.find (P : Prog) (name : Bytes) : Option Pipeline :=
 given inputs -/
 abbrev Oracle := Bytes → List (Bytes × J) → J
 
-/-- how an invocation of a callable is run (`none`: error) -/
-abbrev Runner := Callee → List (Bytes × J) → Option J
+/-- the result of a checked run -/
+inductive Res (α : Type) where
+  | ok (a : α)
+  /-- the run STOPS BY DESIGN: a `disabled` modifier resolved to null.  The run time
+  refuses that (`Fork.disabled`: "disabled is bound to a null value, which is
+  not permitted", the fork fails with "Could not evaluate disabled state"), although
+  null conforms to `bool` like to every type; a null that is known when the
+  program is invoked is refused at once (`resolveDisableExp`: "disabled cannot
+  be bound to a null value") -/
+  | nullDisabled
+  /-- a resolution failed or a delivered value does not conform: what
+  `program_sound_partial` excludes -/
+  | fail
+
+def Res.map {α β : Type} (f : α → β) : Res α → Res β
+  | .ok a => .ok (f a)
+  | .nullDisabled => .nullDisabled
+  | .fail => .fail
+
+/-- all results, if all are ok; `fail` if one failed; else `nullDisabled` -/
+def Res.collect {α : Type} : List (Res α) → Res (List α)
+  | [] => .ok []
+  | r :: rs =>
+    match r, collect rs with
+    | .ok a, .ok as => .ok (a :: as)
+    | .fail, _ => .fail
+    | _, .fail => .fail
+    | _, _ => .nullDisabled
+
+/-- how an invocation of a callable is run -/
+abbrev Runner := Callee → List (Bytes × J) → Res J
 
 def Bind.isSplit : Bind → Bool
   | .split _ => true
@@ -118,54 +150,79 @@ def splitKeys (Γ : Env) (ρ : Store) : List (Bytes × Ty) → List (Bytes × Bi
 
 /-- one call: the callee once, or once per fork -/
 def callOut (rc : Runner) (callee : Callee) (keys : List Bytes) (args : List (Bytes × Bool × List J)) :
-    Option SplitShape → Option J
+    Option SplitShape → Res J
   | none => rc callee (forkInputs args 0)
   | some (.arr _) =>
-    (allSome ((List.range (nforks args)).map fun i => rc callee (forkInputs args i))).map J.arr
+    (Res.collect ((List.range (nforks args)).map fun i => rc callee (forkInputs args i))).map J.arr
   | some (.map _) =>
-    (allSome ((List.range (nforks args)).map fun i =>
+    (Res.collect ((List.range (nforks args)).map fun i =>
       (rc callee (forkInputs args i)).map fun o => (keys.getD i [], o))).map J.obj
 
-def stepCall (rc : Runner) (Γ : Env) (ρ : Store) (c : CallStm) : Option (Env × Store) :=
+/-- the `disabled` modifier at run time (`Fork.disabled`): the reference is
+resolved like any binding to a `bool`; `true` = the call is skipped, `false` = it
+runs, null = the run time refuses to go on (`Res.nullDisabled`) -/
+def disabledRT (Γ : Env) (ρ : Store) (m : Mods) : Res Bool :=
+  match usingDisabled m.usings with
+  | none => .ok false
+  | some e =>
+    match evalT Γ ρ (.base .bool) (bindExp Γ (.base .bool) e) with
+    | some (.bool b) => .ok b
+    | some .null => .nullDisabled
+    | _ => .fail
+
+def stepCall (rc : Runner) (Γ : Env) (ρ : Store) (c : CallStm) : Res (Env × Store) :=
   match checkStm Γ c, allBinds Γ c.callee.params c.binds c.wild with
   | some sh, some bs =>
-    (match argLists Γ ρ bs c.callee.params with
-      | none => none
-      | some args =>
-        match callOut rc c.callee (splitKeys Γ ρ c.callee.params bs) args sh with
-        | none => none
-        | some out =>
-          some ({ Γ with calls := Γ.calls ++ [(c.id, c.sig sh)] }, { ρ with calls := ρ.calls ++ [(c.id, out)] }))
-  | _, _ => none
+    (match disabledRT Γ ρ c.mods with
+      | .fail => .fail
+      | .nullDisabled => .nullDisabled
+      | .ok true =>
+        -- a disabled call is not invoked; its outputs are null
+        .ok ({ Γ with calls := Γ.calls ++ [(c.id, c.sig sh)] }, { ρ with calls := ρ.calls ++ [(c.id, .null)] })
+      | .ok false =>
+        match argLists Γ ρ bs c.callee.params with
+        | none => .fail
+        | some args =>
+          match callOut rc c.callee (splitKeys Γ ρ c.callee.params bs) args sh with
+          | .fail => .fail
+          | .nullDisabled => .nullDisabled
+          | .ok out =>
+            .ok ({ Γ with calls := Γ.calls ++ [(c.id, c.sig sh)] }, { ρ with calls := ρ.calls ++ [(c.id, out)] }))
+  | _, _ => .fail
 
-def runCalls (rc : Runner) : Env → Store → List CallStm → Option (Env × Store)
-  | Γ, ρ, [] => some (Γ, ρ)
+def runCalls (rc : Runner) : Env → Store → List CallStm → Res (Env × Store)
+  | Γ, ρ, [] => .ok (Γ, ρ)
   | Γ, ρ, c :: r =>
     match stepCall rc Γ ρ c with
-    | none => none
-    | some s => runCalls rc s.1 s.2 r
+    | .fail => .fail
+    | .nullDisabled => .nullDisabled
+    | .ok s => runCalls rc s.1 s.2 r
 
 /-- one invocation of a pipeline -/
-def runPipe (rc : Runner) (p : Pipeline) (ins : List (Bytes × J)) : Option J :=
+def runPipe (rc : Runner) (p : Pipeline) (ins : List (Bytes × J)) : Res J :=
   match runCalls rc { self := p.ins, calls := [] } { self := ins, calls := [] } p.calls with
-  | none => none
-  | some s =>
+  | .fail => .fail
+  | .nullDisabled => .nullDisabled
+  | .ok s =>
     match allBinds s.1 p.outs.toList p.ret p.retWild with
-    | none => none
-    | some bs => (retValueT s.1 s.2 bs p.outs).map J.obj
+    | none => .fail
+    | some bs =>
+      match retValueT s.1 s.2 bs p.outs with
+      | none => .fail
+      | some vs => .ok (.obj vs)
 
 /-- `n` levels of pipelines -/
 def run (P : Prog) (O : Oracle) : Nat → Runner
-  | 0 => fun _ _ => none
+  | 0 => fun _ _ => .fail
   | n + 1 => fun callee ins =>
-    if callee.isStage then some (O callee.name ins)
+    if callee.isStage then .ok (O callee.name ins)
     else
       match P.find callee.name with
-      | none => none
+      | none => .fail
       | some p => runPipe (run P O n) p ins
 
 /-- the whole program: the top-level call statement, outside any pipeline -/
-def runProgram (P : Prog) (O : Oracle) (n : Nat) (top : CallStm) : Option (Env × Store) :=
+def runProgram (P : Prog) (O : Oracle) (n : Nat) (top : CallStm) : Res (Env × Store) :=
   stepCall (run P O n) emptyEnv { self := [], calls := [] } top
 
 /-! ## the static hypotheses, as one decidable check -/
@@ -180,12 +237,24 @@ def fits (P : Prog) : Nat → Callee → Bool
         | none => false
         | some p => p.calls.all fun s => fits P n s.callee)
 
+/-- every split binding of the call is a map LITERAL with `n` keys, all of them
+legal file names: the keys of the forks are known at compile time -/
+def staticLegalKeys (n : Nat) (params : List (Bytes × Ty)) (bs : List (Bytes × Bind)) : Bool :=
+  params.all fun p =>
+    match bs.lookup p.1 with
+    | some (.split (.map _ kvs)) =>
+      decide (kvs.toList.length = n) && (kvs.toList.map Prod.fst).all legalName
+    | some (.split _) => false
+    | _ => true
+
 /-- everything the theorem needs of one call statement in the environment `Γ`
 (beyond its acceptance by `checkStm`):
 well-formed declared types, distinct parameter names; well-formed expressions; `noHole` at every
 reference (`bindHoleFreeT`: the C17 holes F9 / F10); a MAP call of a callable
-whose outputs are file-typed is excluded (its merged `map<struct>` would need
-fork keys that are legal file names, which nothing enforces: audit M3); a called
+whose outputs are file-typed must have STATICALLY KNOWN LEGAL KEYS – every split
+binding a map literal whose keys are legal file names (`staticLegalKeys`) –
+because its merged `map<struct>` needs fork keys that are legal file names and
+nothing enforces that for keys that only exist at run time (audit M3); a called
 pipeline is the one the program defines under that name. -/
 def okStm (P : Prog) (Γ : Env) (c : CallStm) (sh : Option SplitShape) : Bool :=
   c.callee.params.all (fun p => p.2.wf) && (Ty.struct c.callee.name c.callee.outs).wf &&
@@ -196,8 +265,15 @@ def okStm (P : Prog) (Γ : Env) (c : CallStm) (sh : Option SplitShape) : Bool :=
         ib.2.wf && (match c.callee.params.lookup ib.1 with
           | some t => bindHoleFreeT Γ t ib.2
           | none => true)) &&
+  (match usingDisabled c.mods.usings with
+    | some e => e.wf
+    | none => true) &&
   (match sh with
-    | some (.map _) => !isDirMap (Ty.struct c.callee.name c.callee.outs)
+    | some (.map ks) =>
+      !isDirMap (Ty.struct c.callee.name c.callee.outs) ||
+        (match allBinds Γ c.callee.params c.binds c.wild, ks with
+          | some bs, some k => staticLegalKeys k.length c.callee.params bs
+          | _, _ => false)
     | _ => true) &&
   (c.callee.isStage ||
     (match P.find c.callee.name with
@@ -232,12 +308,96 @@ def okPipe (P : Prog) (p : Pipeline) : Bool :=
               | none => true)
           | .split _ => false)
 
-/-- the whole program: every pipeline definition, and the top-level call -/
+/-! ### references into untyped maps (what `MakePipelineCallGraph` refuses)
+
+The real run time never materialises the outputs of a nested pipeline or the
+inputs of a called pipeline: `MakePipelineCallGraph` COMPOSES the bindings across
+pipeline boundaries, and a mapped call whose forks are known statically is expanded
+to a literal of references.  Wherever the composed expression below an UNTYPED
+`map` destination is a map / struct literal that contains a reference, the resolver
+refuses the program by design ("reference … cannot be bound inside an untyped
+map", known finding F-C07-UMAP; audit pass 2, N1), although the compile-time
+rules accept the binding.  The checked semantics `run` materialises values and
+does not model the composition; the decidable hypothesis below excludes,
+conservatively, every binding whose composed form can be such a literal. -/
+
+mutual
+  /-- the type contains the untyped `map` somewhere -/
+  def hasUMap : Ty → Bool
+    | .base b => b == .map
+    | .user _ => false
+    | .arr t => hasUMap t
+    | .tmap t => hasUMap t
+    | .struct _ fs => hasUMapF fs
+  def hasUMapF : Fields → Bool
+    | .nil => false
+    | .cons _ t r => hasUMap t || hasUMapF r
+end
+
+/-- a binding of `e` to a destination of type `t` is composed to something the
+resolver takes: `t` has no untyped map, or `e` has no reference, or `e` is a BARE
+reference to an output of a STAGE that is not map-called with statically known keys
+(a reference stays a reference; a run-time merge is resolved by `resolveMerge`,
+repaired by 5969c07), or a bare reference to an input of the TOP pipeline (bound to
+a reference-free literal by the top-level call).  Excluded: references nested in
+literals, outputs of nested pipelines, inputs of nested pipelines, statically
+expanded map calls. -/
+def umapExp (P : Prog) (inTop : Bool) (Γ : Env) (t : Ty) (e : Exp) : Bool :=
+  !hasUMap t || !e.hasRef ||
+    (match e with
+      | .call id _ =>
+        (match Γ.calls.lookup id with
+          | some sig =>
+            (P.find sig.name).isNone &&
+              (match sig.src with
+                | some (.map (some _)) => false
+                | _ => true)
+          | none => false)
+      | .self _ _ => inTop
+      | _ => false)
+
+def umapBind (P : Prog) (inTop : Bool) (Γ : Env) (t : Ty) : Bind → Bool
+  | .plain e => umapExp P inTop Γ t e
+  | .split e => umapExp P inTop Γ t e
+
+def umapCalls (P : Prog) (inTop : Bool) : Env → List CallStm → Bool
+  | _, [] => true
+  | Γ, c :: r =>
+    match checkStm Γ c, allBinds Γ c.callee.params c.binds c.wild with
+    | some sh, some bs =>
+      (bs.all fun ib =>
+        match c.callee.params.lookup ib.1 with
+        | some t => umapBind P inTop Γ t ib.2
+        | none => true) &&
+      umapCalls P inTop { Γ with calls := Γ.calls ++ [(c.id, c.sig sh)] } r
+    | _, _ => true
+
+/-- every call argument and every return binding of the pipeline -/
+def umapPipe (P : Prog) (inTop : Bool) (p : Pipeline) : Bool :=
+  umapCalls P inTop { self := p.ins, calls := [] } p.calls &&
+  (match checkCalls { self := p.ins, calls := [] } p.calls with
+    | none => true
+    | some Γ =>
+      match allBinds Γ p.outs.toList p.ret p.retWild with
+      | none => true
+      | some bs => bs.all fun ib =>
+          match p.outs.toList.lookup ib.1 with
+          | some t => umapBind P inTop Γ t ib.2
+          | none => true)
+
+/-- the whole program: every pipeline definition, the top-level call, and no
+reference that is composed into an untyped map -/
 def progOk (P : Prog) (top : CallStm) : Bool :=
   P.pipes.all (okPipe P) && validTop top &&
     (match checkStm emptyEnv top with
       | some sh => okStm P emptyEnv top sh
-      | none => false)
+      | none => false) &&
+    P.pipes.all (fun p => umapPipe P (p.name == top.callee.name) p)
+
+/-- no call of the program has a `disabled` modifier -/
+def noDisabled (P : Prog) (top : CallStm) : Bool :=
+  (usingDisabled top.mods.usings).isNone &&
+    P.pipes.all fun p => p.calls.all fun c => (usingDisabled c.mods.usings).isNone
 
 /-- the callables the program calls -/
 def Prog.callees (P : Prog) (top : CallStm) : List Callee :=
